@@ -154,6 +154,10 @@ pub struct Stats {
 }
 
 fn check(st: &mut Stats, fmt_name: &str, from: xt::Format, to: xt::Format, data: &[u8], rng: &mut Rng) {
+	check_with(st, fmt_name, from, to, data, rng, None)
+}
+
+fn check_with(st: &mut Stats, fmt_name: &str, from: xt::Format, to: xt::Format, data: &[u8], rng: &mut Rng, forced: Option<Sched>) {
 	if st.cases % 64 == 0 {
 		BEAT.fetch_add(1, Ordering::Relaxed);
 	}
@@ -164,10 +168,13 @@ fn check(st: &mut Stats, fmt_name: &str, from: xt::Format, to: xt::Format, data:
 		c.push_str(&hex(data));
 	}
 	let s = translate(data, None, Some(from), to);
-	let sched = match rng.below(3) {
-		0 => Sched::Fixed(1),
-		1 => Sched::Fixed(2 + rng.below(3) as usize),
-		_ => Sched::Random { seed: rng.next(), max: 3 },
+	let sched = match forced {
+		Some(f) => f,
+		None => match rng.below(3) {
+			0 => Sched::Fixed(1),
+			1 => Sched::Fixed(2 + rng.below(3) as usize),
+			_ => Sched::Random { seed: rng.next(), max: 3 },
+		},
 	};
 	let r = translate(data, Some(sched.clone()), Some(from), to);
 	st.cases += 1;
@@ -208,6 +215,12 @@ fn check(st: &mut Stats, fmt_name: &str, from: xt::Format, to: xt::Format, data:
 }
 
 fn enumerate(st: &mut Stats, name: &str, toks: &[&[u8]], max_len: usize, from: xt::Format, to: xt::Format, rng: &mut Rng) {
+	enumerate_prefixed(st, name, b"", toks, max_len, from, to, rng)
+}
+
+/// Every token sequence behind a fixed prefix (a byte order mark: a multi-byte character at offset 0, which a reader may
+/// deliver in pieces).  With a prefix each sequence is read with 1-byte and with 2-byte reads instead of one drawn schedule.
+fn enumerate_prefixed(st: &mut Stats, name: &str, prefix: &[u8], toks: &[&[u8]], max_len: usize, from: xt::Format, to: xt::Format, rng: &mut Rng) {
 	st.max_len.insert(name.to_string(), max_len);
 	let k = toks.len();
 	let mut idx: Vec<usize> = vec![];
@@ -216,11 +229,16 @@ fn enumerate(st: &mut Stats, name: &str, toks: &[&[u8]], max_len: usize, from: x
 		idx.clear();
 		idx.resize(len, 0);
 		loop {
-			let mut data = vec![];
+			let mut data = prefix.to_vec();
 			for &i in &idx {
 				data.extend_from_slice(toks[i]);
 			}
-			check(st, name, from, to, &data, rng);
+			if prefix.is_empty() {
+				check(st, name, from, to, &data, rng);
+			} else {
+				check_with(st, name, from, to, &data, rng, Some(Sched::Fixed(1)));
+				check_with(st, name, from, to, &data, rng, Some(Sched::Fixed(2)));
+			}
 			// next
 			let mut p = len;
 			loop {
@@ -262,5 +280,8 @@ pub fn run(seed: u64, tier: &str) -> Stats {
 	enumerate(&mut st, "json", &JSON_TOKENS, lj, xt::Format::Json, xt::Format::Msgpack, &mut rng);
 	enumerate(&mut st, "yaml", &YAML_TOKENS, ly, xt::Format::Yaml, xt::Format::Json, &mut rng);
 	enumerate(&mut st, "msgpack", &MSGPACK_TOKENS, lm, xt::Format::Msgpack, xt::Format::Json, &mut rng);
+	// the same alphabets behind a UTF-8 byte order mark
+	enumerate_prefixed(&mut st, "json+bom", b"\xef\xbb\xbf", &JSON_TOKENS, 3, xt::Format::Json, xt::Format::Msgpack, &mut rng);
+	enumerate_prefixed(&mut st, "yaml+bom", b"\xef\xbb\xbf", &YAML_TOKENS, 3, xt::Format::Yaml, xt::Format::Json, &mut rng);
 	st
 }
